@@ -53,6 +53,16 @@ Theorem C05_saves_exactly : forall (c : config enc) f body s en s' ot ob,
   end.
 Proof. intros c f body. exact (mutate_saves S text content enc decodes load ser encode empty c f body). Qed.
 
+(* what C05_saves_exactly puts in the output (and backup) file parses back: for a codec whose encoding decodes back (the
+   harness sweeps every byte sequence of the three legacy code pages) and a serialiser whose text loads back (C01 / C02 /
+   C04 for SM and SSC), the bytes [ob] it writes, decoded with the detected encoding, load to exactly the simfile serialised *)
+Theorem C05_written_bytes_parse_back : forall en (x : S) ot ob p,
+  (forall t b, encode en t = Some b -> decodes en b = Some t) ->
+  (forall q y t, ser y = Some t -> load q t = Some y) ->
+  ser x = Some ot -> encode en ot = Some ob ->
+  exists t, decodes en ob = Some t /\ load p t = Some x.
+Proof. intros en x ot ob p Hcodec Hround Hs He. exists ot. split; [apply Hcodec; exact He|apply Hround; exact Hs]. Qed.
+
 (* a backup name equal to the input or output name is refused before anything is written *)
 Theorem C05_backup_clash : forall (c : config enc) f body fault,
   backup_clash enc str_eqb c = true ->
@@ -68,6 +78,7 @@ End C05.
 Print Assumptions C05_first_decoding.
 Print Assumptions C05_decode_error_iff.
 Print Assumptions C05_saves_exactly.
+Print Assumptions C05_written_bytes_parse_back.
 Print Assumptions C05_backup_clash.
 Print Assumptions C05_clash_is_name_equality.
 
